@@ -122,6 +122,9 @@ def kwargs_menu(name, shape):
             out.append({"axes": None})
             out.append({"s": tuple([3, 4, 2][:max(1, nd - 1)]), "axes": None})
             out.append({"s": tuple([3, 4, 2][:max(1, nd - 1)]), "axes": None, "_positional": True})
+            out.append({"axes": nd - 1})                     # a bare integer where a sequence is usual (scipy accepts both)
+            out.append({"s": 5, "axes": -1})
+            out.append({"s": 5})
             if nd >= 2 and name in ("fftn", "ifftn", "fft2", "ifft2"):
                 out.append({"s": (-1, 4), "axes": (0, 1)})
                 out.append({"s": (3, -1), "axes": (nd - 1, 0)})
@@ -132,10 +135,13 @@ def transformed_axes(name, kw, nd):
     if name in ONE_D:
         return {kw.get("axis", -1) % nd}
     axes = kw.get("axes")
+    if isinstance(axes, int):
+        axes = (axes,)
     if axes is None:
         if name.endswith("2") and "axes" not in kw:
             return {nd - 2, nd - 1}
         s = kw.get("s")
+        s = (s,) if isinstance(s, int) else s
         return set(range(nd)) if s is None else set(range(nd - len(s), nd))
     return {a % nd for a in axes}
 
@@ -245,6 +251,9 @@ def fft_case(case, res):
                     continue
                 try:
                     kw_ref = {k: v for k, v in kw.items() if k not in ("_positional", "workers", "overwrite_x")}
+                    for k_ in ("s", "axes"):
+                        if isinstance(kw_ref.get(k_), int):
+                            kw_ref[k_] = (kw_ref[k_],)
                     if "axes" in kw_ref and kw_ref["axes"] is None:
                         # spelled-out None means ALL axes (or the last len(s)) for every n-d name, also the "2" ones
                         n_ax = nd if kw_ref.get("s") is None else len(kw_ref["s"])
